@@ -24,6 +24,8 @@ def gen_streams(ctx):
         jobs.append(("rand", ["rand", per, 60 if quick else 300, k]))
     for k in range(nshard):
         jobs.append(("occ", ["occ", 2500 if quick else 60000, k]))
+    for k in range(nshard // 2):
+        jobs.append(("dense", ["dense", 2500 if quick else 60000, k]))
     cfgs = "1,3,0,11,9" if quick else "0,1,2,3,8,9,10,11,5,13"
     # exhaustive small domain, one job per configuration
     for c in cfgs.split(","):
@@ -173,7 +175,7 @@ def run_matcher_check(ctx, pid, known_filter=None):
         rule="cases = (configuration, representations, haystack, needle); each case runs 6 algorithms x (score-only, indices) x "
              "(fresh, used, poisoned matcher); streams: corpus of past failures, seeded structured random (needles drawn as subsequences/"
              "substrings/trimmed copies of the normalized haystack, then perturbed), exhaustive small domain over an 8-symbol alphabet, "
-             "occurrence-rich haystacks (the needle, near misses of it and separators concatenated), size-limit shapes (fixed list plus a band around the slab-fit boundary), long needles, matches starting beyond index 2^16 / 2^17; distinct non-trivial = distinct cases with non-empty haystack and needle",
+             "occurrence-rich haystacks (the needle, near misses of it and separators concatenated), dense cases (haystacks of 6-16 characters over a tiny alphabet of mixed character classes with the needle embedded with gaps 0-2: ties between continuing a run and entering it from a gap), size-limit shapes (fixed list plus a band around the slab-fit boundary), long needles, matches starting beyond index 2^16 / 2^17; distinct non-trivial = distinct cases with non-empty haystack and needle",
         samples=[l[:300] for l in lines if l.startswith("M ")][:3] + [l for l in lines if l.startswith("X ")][:2],
         model_disagreements=len(diffs), oracle_failures=len(mine))
     ctx.assumptions += ["Rust std char::is_lowercase/is_numeric/is_alphabetic are inputs of the model",
